@@ -482,20 +482,22 @@ func (c *caseRun) probe() {
 		open("CachedStore.GetByHeight", func() (eds.AccessorStreamer, error) { return c.cs.GetByHeight(c.ctx, heightH) }, &p.Cached, "cachedstore")
 		open("Store.GetByHeight (second)", func() (eds.AccessorStreamer, error) { return c.st.GetByHeight(c.ctx, heightH) }, &p.Store2, "store")
 	}
-	// by hash: never a cache; the empty block is the package-level in-memory accessor (no bounds validation)
+	// by hash: never a cache
 	switch p.Byhash.Via {
 	case "none":
 		if acc, err := c.st.GetByHash(c.ctx, b.Hash); err == nil {
 			c.drift("Store.GetByHash finds the block; the model says there is no file")
 			_ = acc.Close()
 		}
-	case "emptyaccessor":
+	case "emptymem":
+		// the empty block by hash: the in-memory square, wrapped (bounds validation) like all the others
 		acc, err := c.st.GetByHash(c.ctx, b.Hash)
 		if err != nil {
 			c.violate("C05/open/notfound/byhash", fmt.Sprintf("Store.GetByHash of the empty block: %v", err))
 		} else {
 			c.count("open_byhash_empty", 1)
-			o.readAll(acc, readOpts{path: "Store.GetByHash (empty block)", tag: "plain:mem", plain: true, warmFrac: wf})
+			o.readAll(acc, readOpts{path: "Store.GetByHash (empty block)", tag: "byhash:emptyblock", validated: true, pred: &p.Byhash.Obs, warmFrac: wf})
+			_ = acc.Close()
 		}
 	case "file":
 		acc, err := c.st.GetByHash(c.ctx, b.Hash)
@@ -762,7 +764,17 @@ func TestDriver(t *testing.T) {
 	}
 	rng.Shuffle(len(cases), func(i, j int) { cases[i], cases[j] = cases[j], cases[i] })
 	// wide cases are long: start them first
-	sort.SliceStable(cases, func(i, j int) bool { return cases[i].Kind == "wide" && cases[j].Kind != "wide" })
+	// ... and the few "nothing stored yet" cases, so that they are never lost to the time budget
+	prio := func(c *caseDef) int {
+		switch {
+		case c.Kind == "wide":
+			return 0
+		case len(c.Edge.Hist) == 0:
+			return 1
+		}
+		return 2
+	}
+	sort.SliceStable(cases, func(i, j int) bool { return prio(cases[i]) < prio(cases[j]) })
 
 	start := time.Now()
 	var next, done, skipped int64
